@@ -305,7 +305,7 @@ def subs_var(fn, sub):
 def r4(ctx, vals):
     ctx.rule('C14.R4', 'RESULT_CONTINUE is announced (more = true) only when a complete further item is buffered: a plain '
              'byte, or a two-byte sequence that passed the completeness test; and *value is stored only while no value was '
-             'stored before in this call', minimum=4, star=True)
+             'stored before in this call; a deferred two-byte sequence is left in the buffer as a whole', minimum=6, star=True)
     fb = ctx.fb
     fn = fb.fn(DEC)
     flag = vals.get('ENH_BYTE_FLAG')
@@ -334,6 +334,23 @@ def r4(ctx, vals):
             fn.needs_one_of(m, [('(%s < (%s + #2))' % (ln, idx), False), ('(%s == #%d)' % (kindvar, b1), False)]) and \
             fn.needs_one_of(m, [('(%s == #%d)' % (kindvar, b2), False)])
         ctx.ob('C14.R4', fn, m, plain or complete, 'more = true', 'for a plain byte: %s; for a complete sequence: %s' % (plain, complete))
+    # a deferred sequence stays in the buffer as a whole: where "more" is announced behind the cursor advance to the second
+    # byte, the cursor is stepped back before the consumed count is handed to the transport
+    cons = [c for c in fn.all('CXXMemberCallExpr') if (fn.nodes[c].get('callee') or '').endswith('::readConsumed')]
+    incs = [nid for nid, d, rhs, op, lhs in fn.assignments() if op == '++' and d and d.split(':')[-1] == idx and
+            fn.nodes[nid]['k'] == 'UnaryOperator' and fn.parent(nid) is not None and fn.nodes[fn.parent(nid)]['k'] != 'ForStmt' and
+            fn.line_of(nid) > subs[0][0]]
+    incs = [i for i in incs if len(subs) > 1 and fn.line_of(i) <= subs[1][0]]
+    decs = set(nid for nid, d, rhs, op, lhs in fn.assignments() if op == '--' and d and d.split(':')[-1] == idx)
+    if cons and incs:
+        for m in mores:
+            behind = any(fn.reaches_point(fn.pos(i)[0], fn.pos(m), set(), start_idx=fn.pos(i)[1] + 1) for i in incs) and \
+                fn.line_of(m) > fn.line_of(incs[0])
+            if not behind:
+                continue
+            leak = fn.reaches_point(fn.pos(m)[0], fn.pos(cons[0]), decs, start_idx=fn.pos(m)[1] + 1)
+            ctx.ob('C14.R4', fn, m, not leak, 'deferred sequence is kept whole',
+                   'every path from this "more" to readConsumed() steps the cursor back to the first byte: %s' % (not leak))
     stores = [nid for nid, d, rhs, op, lhs in fn.assignments() if lhs is not None and fn.key(lhs) == '*' + fn.P(2)]
     # path-sensitive: track the flag that records "a value was stored" (the variable assigned true next to the store)
     flagvar = None
